@@ -14,7 +14,7 @@ pub fn prop() -> Prop {
     Prop {
         id: "C15",
         level: "exploration",
-        rule: "through the public constructors and accessors, in BOTH build profiles (release-like and debug-assertion/overflow-check): every integer of the boundary lattice (round trip, tag, immediacy); both booleans and null; all 81 (entry offset, local count) pairs from two 9-value boundary sets; 112 float bit patterns (sign x 7 exponents x 4 mantissas, compared by bits); all strings of <= 3 characters over {a, é, 😀, NUL}; strings and integer arrays of every length around each power of two up to 65 537; all arrays of depth <= 2 and width <= 2 over four element values; alignment of every heap box; and the complete 200 x 200 cross product of a fixed 200-value set: == holds iff same type and same content (NaN excepted) and never panics for scalars, text and functions. A case = one value or one pair; all are non-trivial; distinct = distinct case descriptions",
+        rule: "through the public constructors and accessors, in BOTH build profiles (release-like and debug-assertion/overflow-check): every integer of the boundary lattice (round trip, tag, immediacy); both booleans and null; all 81 (entry offset, local count) pairs from two 9-value boundary sets; 112 float bit patterns (sign x 7 exponents x 4 mantissas, compared by bits); all strings of <= 3 characters over {a, é, 😀, NUL}; strings and integer arrays of every length around each power of two up to 65 537; all arrays of depth <= 2 and width <= 2 over four element values; alignment of every heap box; strings and arrays changed in place through the mutable accessors (7 edits x every small string: equal to a fresh value of the new content, different from the old); and the complete 200 x 200 cross product of a fixed 200-value set: == holds iff same type and same content (NaN excepted) and never panics for scalars, text and functions. A case = one value or one pair; all are non-trivial; distinct = distinct case descriptions",
         assumptions: &["heap values are created through a GC obtained from the facade re-export (verif::GC)", "array == array is outside the property (scalars, text and functions only)"],
         run,
         replay,
@@ -239,6 +239,67 @@ fn run(sh: &mut Shard) {
             let want = spec_equal(a, b);
             let r = guarded(|| (objs[i] == objs2[j], objs[i] != objs2[j]));
             check(sh, format!("{a:?} == {b:?}"), matches!(r, Ok((e, ne)) if e == want && ne != want), || format!("== and != gave {r:?}, expected {want}"));
+        }
+    }
+    // values changed IN PLACE through the public mutable accessors carry their new content and nothing of the
+    // old: they equal a fresh value of the new content (both ways) and differ from a fresh one of the old
+    let texts: Vec<String> = strings3().into_iter().chain(["foobar".to_string(), "ééééééé".to_string(), "a".repeat(40)]).collect();
+    type Edit = fn(&mut String);
+    let edits: Vec<(&str, Edit)> = vec![
+        ("push x", |t| t.push('x')),
+        ("pop", |t| {
+            t.pop();
+        }),
+        ("replace the first character by d", |t| {
+            if let Some(c) = t.chars().next() {
+                t.replace_range(0..c.len_utf8(), "d");
+            }
+        }),
+        ("replace the first character by 😀", |t| {
+            if let Some(c) = t.chars().next() {
+                t.replace_range(0..c.len_utf8(), "😀");
+            }
+        }),
+        ("clear and refill", |t| {
+            t.clear();
+            t.push_str("nieuw");
+        }),
+        ("insert é at the front", |t| t.insert(0, 'é')),
+        ("two edits that cancel", |t| {
+            t.push('q');
+            t.pop();
+        }),
+    ];
+    for t in &texts {
+        for (ename, edit) in &edits {
+            let mut expected = t.clone();
+            edit(&mut expected);
+            let r = guarded(|| {
+                let mut o = Object::string(t.as_str(), &mut gc);
+                edit(o.as_string_mut());
+                let fresh = Object::string(expected.as_str(), &mut gc);
+                let old = Object::string(t.as_str(), &mut gc);
+                (o.as_str() == expected, o == fresh, fresh == o, o != fresh, o == old, o.tag())
+            });
+            let same_as_old = expected == *t;
+            check(
+                sh,
+                format!("string {t:?} edited in place ({ename})"),
+                matches!(&r, Ok((true, true, true, false, eq_old, Type::String)) if *eq_old == same_as_old),
+                || format!("(content, == fresh, fresh ==, != fresh, == old, tag) = {r:?}; the new content is {expected:?}"),
+            );
+        }
+    }
+    for len in 0..4usize {
+        for at in 0..len {
+            let r = guarded(|| {
+                let mut o = Object::array((0..len).map(|i| Object::int(i as isize)).collect::<Vec<_>>(), &mut gc);
+                o.as_vec_mut()[at] = Object::int(99);
+                o.as_vec_mut().push(Object::bool(true));
+                let v = o.as_vec();
+                (v.len(), v[at].tag() == Type::Int && v[at].as_int() == 99, v[len].tag() == Type::Bool, o.tag())
+            });
+            check(sh, format!("array of {len} changed in place at {at}"), matches!(&r, Ok((n, true, true, Type::Array)) if *n == len + 1), || format!("{r:?}"));
         }
     }
     drop(gc);
